@@ -222,8 +222,8 @@ def _maxwell(shape):
         full = lambda q_: np.concatenate([ld, q_])
         # derivative w.r.t. the subsystem coordinates and w.r.t. the internal coordinate l_d
         hq = m.h_q(t, full(s.q), u)
-        k.prove_eq("h_q[:,1:]=dh/dq_sub", hq[:, 1:], s.d_q(lambda t_, q_, u_: np.asarray(m.h(t_, full(q_), u_)).reshape(-1)))
-        k.prove_eq("h_q[:,0]=dh/dl_d", hq[:, 0], k.jac(lambda ld_: np.asarray(m.h(t, np.concatenate([ld_, s.q]), u)).reshape(-1), ld)[:, 0])
+        k.prove_eq("h_q[:,1:]=dh/dq_sub", hq[:, 1:], s.d_q(lambda t_, q_, u_: np.asarray(m.h(t_, full(q_), u_))))
+        k.prove_eq("h_q[:,0]=dh/dl_d", hq[:, 0], k.jac(lambda ld_: np.asarray(m.h(t, np.concatenate([ld_, s.q]), u)), ld)[:, 0])
         qdq = np.atleast_1d(m.q_dot_q(t, full(s.q), u))
         k.prove_eq("q_dot_q[1:]=d q_dot/dq_sub", qdq[1:], s.d_q(lambda t_, q_, u_: m.q_dot(t_, full(q_), u_))[0])
         k.prove_eq("q_dot_q[0]=d q_dot/dl_d", qdq[0], k.jac(lambda ld_: np.atleast_1d(m.q_dot(t, np.concatenate([ld_, s.q]), u)), ld)[0, 0])
